@@ -160,4 +160,13 @@ def uDocBad : Tree := el "Holder" [] none [el "m" [] none [el "y" [] (some "a") 
 /-- `<Holder><m>abc</m></Holder>` : neither an int nor an Item with content … but an empty Item binds -/
 def uDocText : Tree := el "Holder" [] none [el "m" [] (some "abc") []]
 
+
+/-! ### outside the supported region: a field whose default is an arbitrary callable -/
+
+def varOther : XmlVar := { varA with default := .other }
+def metaOther : XmlMeta := { metaRoot with attributes := [(['a'], varOther)] }
+def ctxOther : Ctx :=
+  { ctx with classes := [{ id := "Root".toList, metas := [(none, metaOther)], mro := ["Root".toList], bases := [],
+                           fields := [⟨['x'], true, none⟩, ⟨['a'], true, some .none⟩] }] }
+
 end Proofs.C15.Witness
